@@ -143,6 +143,9 @@ func runC01(r *hk.Run) {
 	// (d) connection-level events: the retry must carry the body
 	runEventCells(r, rng.Fork())
 
+	// (m) Alt-Svc: the same requests over TCP first and over the learned HTTP/3 endpoint later
+	runAltSvcCells(r, rng.Fork())
+
 	// (l) one Request sent several times while its body value changes
 	runRemarshalCells(r, rng.Fork())
 
@@ -166,6 +169,10 @@ func runC01(r *hk.Run) {
 
 	// (e) authority grammar, SetScheme, host-part parameters, very long URLs (no network)
 	runOfflineCells(r, rng.Fork())
+
+	// (n) request B written while request A is suspended between two of its header lines (last: it
+	// pins the scheduler to one P for its duration)
+	runReentrantCells(r, rng.Fork())
 }
 
 func nonTrivialStr(s string) bool {
